@@ -365,14 +365,26 @@ func C17(tier common.Tier) int {
 		allIdx = append(allIdx, i)
 	}
 	for _, pk := range []e1.UsePkg{e1.UPkgD, e1.UPkgU, e1.UPkgW} {
-		spec := &e1.UseSpec{Pkg: pk, Mix: e1.UseMix{TestOnly: true, Allow: 4}, Sites: us,
-			Blocks: []e1.UseBlock{{Encl: e1.UEPlain, Stmts: allIdx}, {Encl: e1.UEStructField, File: 1}, {Encl: e1.UEPkgVarTyped, File: 1}}}
-		rd := e1.RenderUse(spec)
-		res, err := prog.Run(rd.Prog, prog.Opts{})
-		if err != nil {
-			common.Fatalf("%v", err)
+		// every way the using package can name the items: qualified, through aliases, renamed and dot imports
+		for _, sp := range []e1.Spell{e1.SpDirect, e1.SpLocalAlias, e1.SpThirdAlias, e1.SpRenamedImp, e1.SpDotImport, e1.SpBodyAlias} {
+			if pk.Path == e1.PathD && sp != e1.SpDirect && sp != e1.SpLocalAlias && sp != e1.SpBodyAlias {
+				continue
+			}
+			spec := &e1.UseSpec{Pkg: pk, Mix: e1.UseMix{TestOnly: true, Allow: 4}, Spell: sp, Sites: us,
+				Blocks: []e1.UseBlock{{Encl: e1.UEPlain, Stmts: allIdx}, {Encl: e1.UEStructField, File: 1}, {Encl: e1.UEPkgVarTyped, File: 1}}}
+			rd := e1.RenderUse(spec)
+			res, err := prog.Run(rd.Prog, prog.Opts{})
+			if err != nil {
+				common.Fatalf("%v", err)
+			}
+			var own []prog.Diag
+			for _, d := range res.Diags {
+				if d.Pkg == pk.Path { // the package under test; the helper package of the third-package aliases is C04's business
+					own = append(own, d)
+				}
+			}
+			checkFormat("inprocess/use/"+e1.SpellNames[sp], own, rd.Prog, false)
 		}
-		checkFormat("inprocess/use", res.Diags, rd.Prog, false)
 	}
 	run.Sample(map[string]any{"covering_program_diagnostics": len(out.Diags), "append_ignore_reruns": len(jobs), "exit_status_cells": len(exs) * 2})
 	if len(out.Diags) > 0 {
